@@ -106,6 +106,7 @@ class C06(TieCheck):
         rows = {}
         for r in cg["entries"]:
             rows.setdefault(r["id"], []).append(r)
+        bad = []
         for fid in sorted(set(pr.get("bad_reads", []))):
             hit = None
             for r in rows.get(fid, []):
@@ -117,9 +118,13 @@ class C06(TieCheck):
                         break
             nm = names[fid] if fid < len(names) else str(fid)
             if hit:
-                out.append("call graph: read entry point %s reaches %s: %s" % (nm, hit["leaf"], " -> ".join(hit["path"])))
+                bad.append((len(hit["path"]), "call graph: read entry point %s reaches %s: %s" % (nm, hit["leaf"], " -> ".join(hit["path"]))))
             else:
-                out.append("call graph: read entry point %s reaches a writer-blocking operation" % nm)
+                bad.append((99, "call graph: read entry point %s reaches a writer-blocking operation" % nm))
+        bad.sort()
+        out += [b for _, b in bad[:8]]
+        if len(bad) > 8:
+            out.append("call graph: ... and %d more read entry points reach a writer-blocking operation (longer paths through the same functions)" % (len(bad) - 8))
         for fid in pr.get("unclassified", []):
             out.append("entry classification: exported method %s is neither a read nor a write entry point in coq/C06/Entries.v"
                        % (names[fid] if fid < len(names) else fid))
@@ -159,9 +164,16 @@ class C06(TieCheck):
             except Exception as ex:  # noqa
                 viol.append(("harness results unreadable: %s" % ex, {}))
                 continue
+            groups = {}
             for v in res.get("violations") or []:
-                dsc = "%s: entry=%s stage=%s options=%s — %s" % (v["kind"], v["entry"], v["stage"], v["options"], v["detail"])
-                viol.append((dsc, v))
+                groups.setdefault((v["kind"], v["entry"]), []).append(v)
+            for (kind, entry), vs in sorted(groups.items()):
+                v = vs[0]
+                dsc = "%s: entry=%s stage=%s options=%s — %s" % (kind, entry, v["stage"], v["options"], v["detail"])
+                if len(vs) > 1:
+                    dsc += " [same entry point failed in %d setups: %s]" % (
+                        len(vs), "; ".join("%s/%s" % (x["stage"], x["options"]) for x in vs[1:6]))
+                viol.append((dsc, dict(kind=kind, entry=entry, setups=vs)))
         return viol
 
 
